@@ -925,7 +925,9 @@ func (env *SpecEnv) call(x *SExpr) (*Term, types.Type) {
 			case "called":
 				id, ok := env.e.calledCell[args[0].Name]
 				if !ok {
-					env.fail("called(%s): not tracked (only usable in ensures / invariants)", args[0].Name)
+					// a callee's contract applied at a call site: what the callee called is not
+					// observable by the caller
+					return Fresh("called_"+args[0].Name, "Bool"), types.Typ[types.Bool]
 				}
 				v := env.cells().cells[id]
 				if v == nil {
